@@ -23,6 +23,33 @@ HOSTS = {"h1": "127.0.0.1", "h2": "127.0.0.2", "h3": "127.0.0.3"}
 NAMES = {v: k for k, v in HOSTS.items()}
 REASONS = {301: "Moved Permanently", 302: "Found", 303: "See Other", 307: "Temporary Redirect", 308: "Permanent Redirect"}
 ACTIONS = ["Issue", "Redirect", "Final", "Idle"]
+QKINDS = ["plain", "amp", "plus", "hash", "pct"]
+# the text of a query of each kind: values holding percent-encoded reserved characters must arrive meaning the same
+QTEXT = {"none": "", "start": "s=0", "plain": "n=%d", "amp": "q=rock%%26roll&n=%d", "plus": "tag=c%%2B%%2B&n=%d",
+         "hash": "ref=a%%23b&n=%d", "pct": "v=%%2541&n=%d"}
+
+
+def query_text(q):
+    t = QTEXT[q["kind"]]
+    return t % q["hop"] if "%d" in t else t.replace("%%", "%")
+
+
+def query_back(raw):
+    """the abstract query whose pairs the raw QUERY_STRING decodes to"""
+    from urllib.parse import parse_qsl
+    if raw == "":
+        return {"kind": "none", "hop": 0}
+    try:
+        pairs = parse_qsl(raw, keep_blank_values=True, errors="strict")
+    except ValueError:
+        pairs = None
+    for kind in QTEXT:
+        for hop in range(0, 5):
+            q = {"kind": kind, "hop": hop if "%d" in QTEXT[kind] else 0}
+            if pairs == parse_qsl(query_text(q), keep_blank_values=True):
+                return q
+    hops = [int(v) for k, v in (pairs or []) if k == "n" and v.isdigit()]
+    return {"kind": "?" + raw, "hop": hops[0] if hops else -1}
 
 
 def port_num(s, p):
@@ -31,10 +58,11 @@ def port_num(s, p):
     return 8443 if s == "https" else 8080
 
 
-def cfg_text(schemes, hosts, pcs, statuses, maxhops, props=True):
+def cfg_text(schemes, hosts, pcs, statuses, maxhops, props=True, startkinds=("none", "start")):
     q = lambda xs: "{%s}" % ", ".join('"%s"' % x for x in xs)
     s = ("SPECIFICATION Spec\nCONSTANTS\n  Schemes = %s\n  Hosts = %s\n  PortClasses = %s\n  Statuses = {%s}\n  MaxHops = %d\n"
-         "CHECK_DEADLOCK FALSE\n" % (q(schemes), q(hosts), q(pcs), ", ".join(str(x) for x in statuses), maxhops))
+         "  QKinds = %s\n  StartKinds = %s\nCHECK_DEADLOCK FALSE\n" % (q(schemes), q(hosts), q(pcs), ", ".join(str(x) for x in statuses),
+                                                                     maxhops, q(QKINDS), q(startkinds)))
     if props:
         s += ("INVARIANT WrappedIffHttps\nINVARIANT ChainDelivered\nINVARIANT ExactlyOneFinalResponse\nINVARIANT RequestsCountHops\n"
               "PROPERTY NeverDowngrade\nPROPERTY ReconnectIffTargetDiffers\nPROPERTY ChainInOrder\nPROPERTY NothingAfterTheEnd\n")
@@ -47,7 +75,7 @@ def path_text(segs):
 
 def loc_text(loc, base_scheme):
     """the Location header a server sends for the abstract location"""
-    q = ("?" + loc["q"]) if loc["q"] else ""
+    q = ("?" + query_text(loc["q"])) if loc["q"]["kind"] != "none" else ""
     if loc["shape"] in ("abs", "schemerel"):
         s = loc["s"] if loc["shape"] == "abs" else base_scheme
         auth = HOSTS[loc["h"]]
@@ -160,7 +188,8 @@ class Chain:
         nresp = len(self.patron.responses)
         try:
             if name == "Issue":
-                path = path_text(self.start["path"]) + (("?" + self.start["query"]) if self.start["query"] else "")
+                sq = query_text(self.start["query"])
+                path = path_text(self.start["path"]) + (("?" + sq) if sq else "")
                 self.patron.request(method="GET", path=path, headers={"X-Tag": "t"})
                 self.passes(lambda: len(self.calls()) > ncalls)
             elif name == "Redirect":
@@ -217,7 +246,7 @@ class Chain:
             c = calls[-1]
             s, h, p = c["origin"]
             segs = tuple(c["path"][1:].split("/")) if (c["path"] or "").startswith("/") else ("?" + str(c["path"]),)
-            out["url"] = {"o": {"s": s, "h": h, "p": p}, "path": segs, "query": c["query"] if c["method"] == "GET" else "?" + str(c["method"])}
+            out["url"] = {"o": {"s": s, "h": h, "p": p}, "path": segs, "query": query_back(c["query"]) if c["method"] == "GET" else {"kind": "?" + str(c["method"]), "hop": -1}}
             host, _, port = (c["host"] or "").rpartition(":")
             if not host:
                 host, port = port, str(port_num(s, "std"))
@@ -230,7 +259,7 @@ class Chain:
             else:
                 out["wrapped"] = bool(cx[0].client.tls)
             if c["tag"] != "t":
-                out["url"]["query"] += " [request header X-Tag lost]"
+                out["url"]["query"] = {"kind": "?request header X-Tag lost", "hop": -1}
         if resp:
             r = resp[0]
             ok = bytes(r["body"]) == self.final_body and not r["errored"]
@@ -284,7 +313,8 @@ def run_c34(ctx):
     work = env.subdir("c34")
     # (a) every edge of the one-hop graph
     dot = work + "/one.dot"
-    res = tlc.run("Redirect", cfg_text(schemes, hosts, pcs, ctx.pick([307], statuses), 1, props=False), spec_dir=SPEC_DIR,
+    res = tlc.run("Redirect", cfg_text(schemes, hosts, pcs, ctx.pick([307], statuses), 1, props=False,
+                                       startkinds=ctx.pick(("start",), ("none", "start"))), spec_dir=SPEC_DIR,
                   dump_dot=dot, tag="c34g", coverage=False)
     ctx.add_model(res, "Redirect-graph-1hop", {"MaxHops": 1})
     g = graph.load_dot(dot)
